@@ -11,9 +11,13 @@ pub fn verif_root() -> PathBuf {
 
 /// Scratch directory of this process (removed by the parent at exit).
 pub fn run_dir() -> PathBuf {
-    let base = std::env::var("VERIF_RUN_DIR")
-        .map(PathBuf::from)
-        .unwrap_or_else(|_| verif_root().join("run").join(format!("{}", std::process::id())));
+    // tmpfs: iceoryx2 fsyncs every static storage it writes; on a disk file system the ipc
+    // checks spend most of their time in journal commits (measured 3.7x for request-response)
+    let base = std::env::var("VERIF_RUN_DIR").map(PathBuf::from).unwrap_or_else(|_| {
+        let shm = PathBuf::from("/dev/shm/verif-run");
+        let root = if std::fs::create_dir_all(&shm).is_ok() { shm } else { verif_root().join("run") };
+        root.join(format!("{}", std::process::id()))
+    });
     std::fs::create_dir_all(&base).ok();
     base
 }
@@ -63,4 +67,18 @@ pub fn quiet_panics() {
         return;
     }
     std::panic::set_hook(Box::new(|_| {}));
+}
+
+/// Removes run directories of processes that no longer exist (left behind by killed runs).
+pub fn sweep_dead_run_dirs() {
+    for root in [PathBuf::from("/dev/shm/verif-run"), verif_root().join("run")] {
+        if let Ok(rd) = std::fs::read_dir(&root) {
+            for e in rd.flatten() {
+                let n = e.file_name().to_string_lossy().to_string();
+                if !n.is_empty() && n.chars().all(|c| c.is_ascii_digit()) && !Path::new(&format!("/proc/{n}")).exists() {
+                    let _ = std::fs::remove_dir_all(e.path());
+                }
+            }
+        }
+    }
 }
